@@ -78,8 +78,8 @@ theorem C03_tie_guard_order :
     Gen.calls_Validator_ProcessMessage = ["DutyRunnerForMsgID", "validateMessage", "ProcessConsensus", "ProcessPostConsensus",
       "ProcessPreConsensus", "handleEventMessage"] ∧
     Gen.calls_validateMessage = ["MessageIDBelongs", "GetData"] ∧
-    Gen.src_didDecideCorrectly = "1a723f6c78961c4d" ∧ Gen.src_ShouldProcessDuty = "c9515eb6ef4002c7" ∧
-    Gen.src_ShouldProcessNonBeaconDuty = "b46226dfda067fe4" := by decide
+    Gen.src_didDecideCorrectly = "2bd33bfde6b1f642" ∧ Gen.src_ShouldProcessDuty = "954f6efdc45a96a8" ∧
+    Gen.src_ShouldProcessNonBeaconDuty = "a8a4c0971702d998" := by decide
 
 /-- the controller's paths the model follows, and its instance container: capacity 2, `addNewInstance` as modelled
     (the first `addNewInstance` in `UponDecided` re-inserts an instance reloaded from storage: full nodes only, the model
@@ -88,7 +88,7 @@ theorem C03_tie_controller :
     Gen.calls_Controller_ProcessMsg = ["BaseMsgValidation", "IsDecidedMsg", "UponDecided", "isFutureMessage", "UponExistingInstanceMsg"] ∧
     Gen.calls_Controller_UponDecided = ["ValidateDecided", "InstanceForHeight", "addNewInstance", "NewInstance", "addNewInstance", "IsDecided"] ∧
     Gen.calls_Controller_StartNewInstance = ["GetValueCheckF", "FindInstance", "addAndStoreNewInstance", "Start", "forceStopAllInstanceExceptCurrent"] ∧
-    Gen.ctrl_InstanceContainerDefaultCapacity = 2 ∧ Gen.src_addNewInstance = "962042f751b883ca" := by decide
+    Gen.ctrl_InstanceContainerDefaultCapacity = 2 ∧ Gen.src_addNewInstance = "2988559c7741703e" := by decide
 
 /-! ## the signing window (every state, every input) -/
 
